@@ -68,14 +68,19 @@ func runC20(c *core.Ctx) {
 				}
 				return ""
 			}
-			if be, ok := ast.Unparen(e).(*ast.BinaryExpr); ok && be.Op == token.EQL {
+			if be, ok := ast.Unparen(e).(*ast.BinaryExpr); ok && (be.Op == token.EQL || be.Op == token.NEQ) {
+				// err == X, or its negation !(err != X)
+				var test ast.Expr = e
+				if be.Op == token.NEQ {
+					test = &ast.UnaryExpr{Op: token.NOT, X: &ast.ParenExpr{X: e}}
+				}
 				for _, pair := range [][2]ast.Expr{{be.X, be.Y}, {be.Y, be.X}} {
 					if core.ObjOf(info, pair[0]) == errObj {
 						switch sentinel(pair[1]) {
 						case "io.EOF":
-							isEOF = e
+							isEOF = test
 						case "io.ErrUnexpectedEOF":
-							isUEOF = e
+							isUEOF = test
 						}
 					}
 				}
@@ -125,11 +130,40 @@ func runC20(c *core.Ctx) {
 		retOK := false
 		for _, r := range g.Returns() {
 			rs := r.AST.(*ast.ReturnStmt)
-			if len(rs.Results) == 0 || core.ObjOf(info, rs.Results[len(rs.Results)-1]) != errObj || !g.PathExists(dr[0].V, r, nil) {
+			if len(rs.Results) == 0 || !g.PathExists(dr[0].V, r, nil) {
+				continue
+			}
+			// the parse error itself, or a copy of it made earlier (a helper folded in)
+			var at *core.V
+			if core.ObjOf(info, rs.Results[len(rs.Results)-1]) == errObj {
+				at = r
+			} else {
+				var walk func(v *core.V, e ast.Expr, depth int)
+				walk = func(v *core.V, e ast.Expr, depth int) {
+					if depth == 0 || at != nil {
+						return
+					}
+					for _, vc := range valueCases(g, v, e, 1) {
+						if vc.V == v {
+							continue
+						}
+						if core.ObjOf(info, vc.Expr) == errObj {
+							at = vc.V
+							return
+						}
+						if _, isID := ast.Unparen(vc.Expr).(*ast.Ident); isID {
+							walk(vc.V, vc.Expr, depth-1)
+						}
+					}
+				}
+				walk(r, rs.Results[len(rs.Results)-1], 3)
+			}
+			if at == nil {
 				continue
 			}
 			retOK = true
-			h2, c2, d2 := c.Prog.Implies(core.Formula{Fn: fn, Atoms: g.DominatingAtoms(r), Subst: subst}, core.Formula{Fn: fn, Atoms: []core.Atom{{Expr: any3, Neg: true}}, Subst: subst})
+			atoms := g.DominatingAtoms(at)
+			h2, c2, d2 := c.Prog.Implies(core.Formula{Fn: fn, Atoms: atoms, Subst: subst}, core.Formula{Fn: fn, Atoms: []core.Atom{{Expr: any3, Neg: true}}, Subst: subst})
 			if !d2 {
 				core.Undecided("condition of the error return not decided: %s", c2)
 			}
@@ -464,24 +498,44 @@ func runC20(c *core.Ctx) {
 			n++
 			o.Count(1)
 			o.At(fn.Site(rs, "reports end of input"))
-			ok := g.GuardedBy(r, func(a core.Atom) bool {
-				cmp, isCmp := a.AsCmp()
-				if !isCmp || cmp.Op != token.EQL {
-					return false
+			// edges on which "the amount of buffered data after the refill
+			// equals the amount before it" holds: two samples of the fill
+			// level, or a sample taken before and the field read after
+			before := func(d *core.V) bool { return g.Dominates(d, rf) && d != rf }
+			after := func(d *core.V) bool { return g.Dominates(rf, d) && d != rf }
+			isUsedField := func(e ast.Expr) bool {
+				sel, ok := ast.Unparen(e).(*ast.SelectorExpr)
+				return ok && sel.Sel.Name == "used"
+			}
+			var good []core.EdgeRef
+			for _, bv := range g.BranchVertices() {
+				for _, l := range []core.EdgeLabel{core.EdgeTrue, core.EdgeFalse} {
+					for _, a := range bv.Implied(l) {
+						cmp, isCmp := a.AsCmp()
+						if !isCmp || cmp.Op != token.EQL {
+							continue
+						}
+						for _, pair := range [][2]ast.Expr{{cmp.L, cmp.R}, {cmp.R, cmp.L}} {
+							lo := core.ObjOf(info, pair[0])
+							if lo == nil || isUsedField(pair[0]) {
+								continue
+							}
+							ld, ok1 := isUsedSample(lo)
+							if !ok1 || !before(ld) {
+								continue
+							}
+							if isUsedField(pair[1]) && after(bv) {
+								good = append(good, core.EdgeRef{From: bv, Label: l})
+							} else if ro := core.ObjOf(info, pair[1]); ro != nil && !isUsedField(pair[1]) {
+								if rd, ok2 := isUsedSample(ro); ok2 && after(rd) {
+									good = append(good, core.EdgeRef{From: bv, Label: l})
+								}
+							}
+						}
+					}
 				}
-				lo, ro := core.ObjOf(info, cmp.L), core.ObjOf(info, cmp.R)
-				if lo == nil || ro == nil {
-					return false
-				}
-				ld, ok1 := isUsedSample(lo)
-				rd, ok2 := isUsedSample(ro)
-				if !ok1 || !ok2 {
-					return false
-				}
-				before := func(d *core.V) bool { return g.Dominates(d, rf) && d != rf }
-				after := func(d *core.V) bool { return g.Dominates(rf, d) && d != rf }
-				return (before(ld) && after(rd)) || (before(rd) && after(ld))
-			})
+			}
+			ok := len(good) > 0 && g.EdgeDominates(r, good...)
 			if !ok {
 				o.FailAt(fn.Site(rs, ""), "%s: end of input is reported without the test that the refill added nothing: bytes that arrived with the last refill may never be searched", c.Prog.Pos(rs.Pos()))
 			}
